@@ -627,14 +627,13 @@ func airtimeCases(s *cases.Set, r *cq.RNG, thorough bool) {
 	}
 	s.Exhaustive("airtime: all 32768 inputs (SF 5..12 x CR 1..4 x header x LDRO x payload 0..255) of CalculateLoRaPayloadSymbolNumber compared in Coq")
 
-	// Go side, exhaustively over the property's whole domain (10,649,600 inputs):
-	// the result is the composition of the three helpers (which are compared in Coq) and never decreases with the payload size.
+	// Go side, exhaustively over the property's whole domain (10,649,600 inputs): the result is the total symbol count
+	// (preamble n + 4.25, n + 6.25 for SF5/SF6, plus the payload symbol number, which is compared in Coq for every input)
+	// times 2^SF / BW truncated to whole ns, and never decreases with the payload size.
 	nAll, nFail := 0, 0
 	for sf := 5; sf <= 12; sf++ {
 		for _, bw := range bandwidths {
-			sd := airtime.CalculateLoRaSymbolDuration(sf, bw)
 			for pre := 0; pre <= 64; pre++ {
-				pd := airtime.CalculateLoRaPreambleDuration(sd, pre)
 				for cr := 1; cr <= 4; cr++ {
 					for hl := 0; hl < 4; hl++ {
 						h, ld := hl&1 == 1, hl&2 == 2
@@ -643,14 +642,19 @@ func airtimeCases(s *cases.Set, r *cq.RNG, thorough bool) {
 							nAll++
 							d, err := airtime.CalculateLoRaAirtime(pl, sf, bw, pre, airtime.CodingRate(cr), h, ld)
 							n, err2 := airtime.CalculateLoRaPayloadSymbolNumber(pl, sf, airtime.CodingRate(cr), h, ld)
-							bad1 := err != nil || err2 != nil || d != pd+time.Duration(n)*sd
+							s100 := int64(100*pre + 425 + 100*n)
+							if sf <= 6 {
+								s100 += 200
+							}
+							want := time.Duration(s100 * (int64(1) << uint(sf)) * 1000000 / (100 * int64(bw)))
+							bad1 := err != nil || err2 != nil || d != want
 							bad2 := d < prev
 							if (bad1 || bad2) && nFail < 40 {
 								nFail++
-								rp := map[string]interface{}{"api": "airtime.CalculateLoRaAirtime", "payload": pl, "sf": sf, "bandwidth_khz": bw, "preamble": pre, "cr": cr, "header": h, "ldro": ld, "observed_ns": int64(d)}
+								rp := map[string]interface{}{"api": "airtime.CalculateLoRaAirtime", "payload": pl, "sf": sf, "bandwidth_khz": bw, "preamble": pre, "cr": cr, "header": h, "ldro": ld, "observed_ns": int64(d), "symbols_times_tsym_truncated_ns": int64(want)}
 								k := fmt.Sprintf("sf=%d:bw=%d:pre=%d:cr=%d:h=%d:ldro=%d:pl=%d", sf, bw, pre, cr, b01(h), b01(ld), pl)
 								if bad1 {
-									s.Fail(cases.GoFail{Key: "airtime:composition:" + k, What: "CalculateLoRaAirtime differs from preamble duration + symbol number * symbol duration of its own helpers", Replay: rp})
+									s.Fail(cases.GoFail{Key: "airtime:total:" + k, What: "CalculateLoRaAirtime differs from (preamble + 4.25 | 6.25 + payload symbols) * 2^SF / BW truncated to ns", Replay: rp})
 								}
 								if bad2 {
 									s.Fail(cases.GoFail{Key: "airtime:decreases:" + k, What: "airtime decreases when the payload grows by one byte", Replay: rp})
@@ -664,7 +668,7 @@ func airtimeCases(s *cases.Set, r *cq.RNG, thorough bool) {
 		}
 	}
 	s.Extra["airtime_go_side_domain_inputs"] = nAll
-	s.Exhaustive("airtime: all 10,649,600 inputs of the domain on the Go side (result = composition of the helpers; non-decreasing in the payload size)")
+	s.Exhaustive("airtime: all 10,649,600 inputs of the domain on the Go side (result = total symbols * 2^SF / BW truncated to ns; non-decreasing in the payload size)")
 
 	// full airtime rows evaluated in Coq against model and formula: thorough = the whole domain
 	// (8 SF x 5 BW x 65 preambles x 4 CR x header x LDRO rows of 256 payload sizes = 10,649,600 inputs)
@@ -714,7 +718,7 @@ func airtimeCases(s *cases.Set, r *cq.RNG, thorough bool) {
 			cr = 1 + r.Intn(4)
 		}
 		h, ld := r.Bool(), r.Bool()
-		if sf == 2*b01(ld) { // b = 0: float division by zero, not modelled
+		if sf == 0 { // denominator 4*SF = 0: float division by zero, not modelled
 			sf++
 		}
 		o := airOutcome(func() (time.Duration, error) {
